@@ -1,6 +1,6 @@
 """C16 current-iteration clause, bounded: a stage planned in one loop iteration, re-armed by a jump (reset_stage_for_retry) and
-planned again sees, for every key it does not set itself, the value its ancestors produced in the CURRENT iteration; a key the
-stage sets itself keeps the stage's value in both iterations.
+planned again -- and re-armed and planned a third time -- sees, for every key it does not set itself, the value its ancestors
+produced in the CURRENT iteration; a key the stage sets itself keeps the stage's value in every iteration.
 Bound: keys {p, q}; own context C over {absent, 1, [1]}; ancestor outputs of iteration 1 and 2 over {absent, 1, 2, [1], [2]}
 per key; no reducers."""
 import copy
@@ -58,9 +58,30 @@ for cp, cq in itertools.product(OWN, repeat=2):
         except Exception as e:  # noqa
             failures.append({"C": mk(C), "A1": mk(A1), "A2": mk(A2), "why": f"raised {type(e).__name__}: {e}"})
             continue
+        # a third iteration (the loop goes round once more): the ancestors now produce iteration 1's values again, which
+        # differ from iteration 2's wherever A1 != A2 -- a key inherited twice must still follow its ancestors
+        try:
+            reset_stage_for_retry(stage)
+            second = {k: (copy.deepcopy(stage.context[k]) if k in stage.context else ABS) for k in ("p", "q")}
+            repo.get_merged_ancestor_outputs.return_value = mk(A1)
+            h._plan_stage(stage)
+        except Exception as e:  # noqa
+            failures.append({"C": mk(C), "A1": mk(A1), "A2": mk(A2), "why": f"third planning raised {type(e).__name__}: {e}"})
+            continue
+        got3 = {k: stage.context.get(k, ABS) for k in ("p", "q")}
+        w3 = expect(A1, C)
+        exp3 = {k: w3.get(k, ABS) for k in ("p", "q")}
+        decided3 = [k for k in ("p", "q") if (C[k] is not ABS or (A1[k] is not ABS and A2[k] is not ABS))
+                    and not (isinstance(C[k], list) and (isinstance(A1[k], list) or isinstance(A2[k], list)))]
+        if any(got3[k] != exp3[k] for k in decided3):
+            show3 = lambda d: {k: (None if v is ABS else v) for k, v in d.items()}
+            failures.append({"own": mk(C), "ancestors_iteration_1_and_3": mk(A1), "ancestors_iteration_2": mk(A2),
+                             "seen_iteration_3": show3(got3), "want_iteration_3": show3(exp3)})
+            continue
         cases += 1
         w1, w2 = expect(A1, C), expect(A2, C)
-        got2 = {k: stage.context.get(k, ABS) for k in ("p", "q")}
+        got2_saved = second
+        got2 = got2_saved
         exp1 = {k: w1.get(k, ABS) for k in ("p", "q")}
         exp2 = {k: w2.get(k, ABS) for k in ("p", "q")}
         # only keys the current iteration's ancestors still provide are decided by the property (a key no ancestor
